@@ -438,7 +438,8 @@ class reader( object ):
             # only the file name extension!
             fd			= None
             flen		= len( self.name )
-            for f in sorted(( n[flen:] for n in os.listdir( self.dirs ) if n.startswith( self.name )), key=natural ):
+            for f in sorted(( n[flen:] for n in os.listdir( self.dirs or '.' )
+                              if n == self.name or n.startswith( self.name + '.' )), key=natural ):
                 fd		= None
                 try:
                     # Evaluate this file; load the first record and check before/after target If
